@@ -191,6 +191,8 @@ def writer_inputs(rng: random.Random, tier: str, codes):
         strs.append(bytes(rng.choice(b"abcxyz019-_.") for _ in range(n)))
         if n >= 2:
             strs.append(("é" * (n // 2) + ("a" if n % 2 else "")).encode())
+    for txt in ("é" * 16383 + "a", "é" * 16384, "é" * 20000, "€" * 10922 + "ab", "€" * 10923, "€" * 11000, "𝄞" * 8192, "𝄞" * 16000):
+        strs.append(txt.encode())
     strs.append(b"x" * 32768)
     strs.append(b"y" * 40000)
     for s in strs:
@@ -551,7 +553,7 @@ def classify(ctx, disagreements, direct_fail):
     """property failures on the real code are violations (unless a listed known finding);
     a correspondence break without one is reported as no-failing-input-found"""
     for f in direct_fail[:3]:
-        ctx.violation(f"{f['fn']}: property fails on the real code", dict(kind="c11-direct", **f))
+        ctx.violation(f"{f['fn']}: property fails on the real code", {**f, "check": "c11"})
     if disagreements and not direct_fail:
         ctx.broken.append(f"correspondence: {len(disagreements)} disagreement(s), first: {disagreements[0]}")
         ctx.notes.append({"disagreements": disagreements[:10]})
